@@ -125,7 +125,7 @@ def worker(version, args):
             h, b = o[3].split(" ", 1)
             return ("T", [cc.parse_canon(h[1:]), cc.parse_canon(b[1:])])
 
-        def run_matrix(phase, nedits):
+        def run_matrix(phase, nedits, only=None):
             nonlocal_rng = rng
             A = save_dump()
             size = scn.map_manager.map_size
@@ -154,7 +154,7 @@ def worker(version, args):
                 for k, u in enumerate(lst):
                     for a, f in UNIT_FIELDS.items():
                         edits.append(("unit", (p, k), a, u, [f"Units.players_units[{p}].units[{k}].{f}"]))
-            for i in rng.sample(range(size * size), min(6, size * size)):
+            for i in sorted(set(rng.sample(range(size * size), min(6, size * size))) | ({size - 1, size - 2, size * size - 2} if size >= 3 else set())):
                 for a, f in TILE_FIELDS.items():
                     edits.append(("tile", i, a, scn.map_manager.terrain[i], [f"Map.terrain_data[{i}].{f}"]))
             # designation: tile (x, y) IS the object of record y*size+x, and coordinates outside the map designate no tile
@@ -205,6 +205,8 @@ def worker(version, args):
                 edits.append(("message", 0, a, scn.message_manager, [f"Messages.{f}"]))
             for a, (sec, f) in OPTION_FIELDS.items():
                 edits.append(("option", 0, a, scn.option_manager, [f"{sec}.{f}"]))
+            if only:
+                edits = [e for e in edits if e[0] in only]
             if nedits and len(edits) > nedits:
                 keep = [e for e in edits if e[0] == "player"]
                 rest = [e for e in edits if e[0] != "player"]
@@ -269,6 +271,11 @@ def worker(version, args):
             um.add_unit(player=1, unit_const=83, x=3.5, y=0.5)
         PLAYER_SKIP = True
         A = run_matrix("after-reorder", (args["nedits"] // 2) if args["nedits"] else 0)
+        # phase 3: tiles after the map has GROWN in memory (no re-load in between): the tiles that pad the old rows and fill the new
+        # rows are new objects, each the object of its own record
+        with cc.quiet():
+            scn.map_manager.map_size = scn.map_manager.map_size + 2
+        A = run_matrix("after-grow", 0, only=("tile",))
         # after undoing every edit the file must be A again
         Z = save_dump()
         zd = [NM.name_path(p) for p in cc.diff_canon(A, Z)]
